@@ -852,6 +852,12 @@ def call_pymethod(it, obj, name, args, kwargs):
                     if isinstance(sh, tuple) and len(sh) == 1:
                         npm.shape_eq(ctx, a.shape, sh, 'reshape extent')
                         return a
+                    if isinstance(sh, tuple) and len(sh) == 2 and all(isinstance(x, int) or is_int_term(x) for x in sh):
+                        # 1-d -> 2-d, C order: (r, c) <-> r*s1 + c
+                        s0, s1 = sh
+                        ctx.oblige('pre@callee', 'reshape: total size unchanged', scalar_cmp('==', a.n, scalar_arith('*', s0, s1)))
+                        return a.view((s0, s1), lambda r, c: (scalar_arith('+', scalar_arith('*', r, s1), c),),
+                                      lambda k: (True, (tz(k) / tz(s1), tz(k) % tz(s1))))
                     raise Unsupported('reshape')
                 return a
             if a.ndim == 2 and (name in ('ravel', 'flatten') or (name == 'reshape' and (args[0] if len(args) == 1 else tuple(args)) in (-1, (-1,)))):
